@@ -26,6 +26,7 @@ from golem.core.optimisers.genetic.operators.base_mutations import MutationTypes
 from golem.core.optimisers.genetic.operators.crossover import CrossoverTypesEnum
 from golem.core.optimisers.genetic.operators.elitism import ElitismTypesEnum
 from golem.core.optimisers.genetic.operators.inheritance import GeneticSchemeTypesEnum
+from golem.core.optimisers.genetic.operators.regularization import RegularizationTypesEnum
 from golem.core.optimisers.genetic.operators.selection import SelectionTypesEnum
 from golem.core.optimisers.graph import OptGraph, OptNode
 from golem.core.optimisers.meta.surrogate_optimizer import SurrogateEachNgenOptimizer
@@ -53,13 +54,18 @@ NODE_TYPES = ['a', 'b', 'c']
 # ----------------------------------------------------------------------------------------------
 # graphs from specs: spec = [name, [parent specs...]]  (trees) ;  shared nodes via ["@", k]
 # ----------------------------------------------------------------------------------------------
-def build_graph(spec):
+class FittedNode(OptNode):
+    """a node that looks 'fitted' to the decremental regularization operator (as nodes of fitted pipelines do)"""
+    fitted_operation = True
+
+
+def build_graph(spec, node_cls=OptNode):
     made = []
 
     def mk(s):
         if s[0] == '@':
             return made[s[1]]
-        node = OptNode(s[0], [mk(p) for p in s[1]])
+        node = node_cls(s[0], [mk(p) for p in s[1]])
         made.append(node)
         return node
     return OptGraph(mk(spec))
@@ -79,7 +85,7 @@ INITIAL_GRAPHS = {
 
 # custom verification rules (module level so that they can be pickled / named)
 def make_rule(spec):
-    """spec: ['max_nodes', k, 'false'|'raise'] | ['no_label', name, 'false'|'raise']"""
+    """spec: ['max_nodes', k, 'false'|'raise'] | ['no_label', name, 'false'|'raise'] | ['root_in', labels, 'false'|'raise']"""
     kind, arg, how = spec
 
     def rule(graph):
@@ -87,6 +93,9 @@ def make_rule(spec):
             ok = len(graph.nodes) <= arg
         elif kind == 'no_label':
             ok = all(str(n) != arg for n in graph.nodes)
+        elif kind == 'root_in':     # every final node carries one of the given labels: NOT closed under taking subtrees
+            roots = graph.root_nodes() if hasattr(graph, 'root_nodes') else [graph.root_node]
+            ok = all(str(n) in arg for n in roots)
         else:
             raise KeyError(kind)
         if not ok and how == 'raise':
@@ -209,13 +218,15 @@ def make_optimiser(cfg, log, history_dir=None):
         mutation_prob=cfg.get('mutation_prob', 0.8),
         structural_diversity_frequency_check=cfg.get('diversity_check', -1),
         max_num_of_operator_attempts=cfg.get('operator_attempts', 20),
+        regularization_type=RegularizationTypesEnum[cfg.get('regularization', 'none')],
     )
     rules = list(DEFAULT_DAG_RULES)
     if cfg.get('rule'):
         rules.append(make_rule(cfg['rule']))
     gen = GraphGenerationParams(adapter=IdentityAdapter(), rules_for_constraint=rules,
                                 node_factory=DefaultOptNodeFactory(cfg.get('node_types') or NODE_TYPES))
-    initial = [build_graph(s) for s in INITIAL_GRAPHS[cfg.get('initial', 'two')]]
+    node_cls = FittedNode if cfg.get('fitted_nodes') else OptNode
+    initial = [build_graph(s, node_cls) for s in INITIAL_GRAPHS[cfg.get('initial', 'two')]]
     cls = OPTIMISERS[cfg['optimiser']]
     opt = cls(objective, initial, req, gen, gp)
     return opt, objective, gen
@@ -464,6 +475,32 @@ def passthrough_config(rng, optimiser=None):
                     'mutation_prob': rng.choice([0.3, 0.4, 0.5])})
         cfg['objective']['faults'] = {'all_after': [5 + rng.choice([2, 3, 4, 5, 6]), kind]}
     cfg.pop('rule', None)
+    return cfg
+
+
+def regularization_config(rng):
+    """decremental regularization (non-default): sub-graphs of 'fitted' members are offered to selection; with a rule that
+    is not closed under taking subtrees they must be verified before they can be selected and recorded"""
+    cfg = random_config(rng, optimiser=rng.choice(['evo', 'evo', 'surrogate']), multi=False)
+    cfg.update({'regularization': 'decremental', 'fitted_nodes': True, 'initial': rng.choice(['chain', 'big', 'mixed_sizes']),
+                'mutation_prob': rng.choice([0.2, 0.4]), 'crossover_prob': rng.choice([0.2, 0.5]),
+                'num_of_generations': rng.choice([3, 4]), 'pop_size': rng.choice([4, 6]), 'early_stopping_iterations': None,
+                'rule': rng.choice([['root_in', 'a', 'false'], ['root_in', 'ab', 'false'], ['root_in', 'a', 'raise'], None])})
+    if cfg['rule'] is None:
+        cfg.pop('rule')
+    elif cfg['initial'] == 'mixed_sizes':
+        cfg['rule'] = ['root_in', 'ab', cfg['rule'][2]]
+    cfg['objective'] = {'metrics': [rng.choice(['size', 'size', 'balance', 'label'])], 'multi': False}
+    return cfg
+
+
+def unsatisfiable_generator_config(rng):
+    """random search whose rule no randomly grown graph can satisfy (growth always yields >= 3 nodes, the rule allows 2):
+    the generator has to give up with its error; the initial graph is acceptable"""
+    cfg = random_config(rng, optimiser='random_search', multi=False)
+    cfg.update({'rule': ['max_nodes', 2, rng.choice(['false', 'raise'])], 'initial': 'single', 'max_depth': rng.choice([2, 3]),
+                'num_of_generations': rng.choice([2, 3]), 'early_stopping_iterations': None})
+    cfg['objective'] = {'metrics': [rng.choice(['size', 'neg_size'])], 'multi': False}
     return cfg
 
 
